@@ -78,6 +78,22 @@ func (m c04) Run(ctx *core.Ctx) {
 		L = 5
 	}
 	runStateWorkload(ctx, m.Exec, histKinds{setters: true, resolve: true}, tierN(ctx.Tier, 1_200_000, 30_000_000), tierN(ctx.Tier, 900_000, 20_000_000), L)
+	// the composition clauses under sampled parser configurations
+	r := ctx.Rng
+	n := split(tierN(ctx.Tier, 400_000, 6_000_000), ctx.Shard, ctx.NShards)
+	for i := int64(0); i < n; i++ {
+		cfg := randomConfig(r)
+		if r.IntN(4) == 0 {
+			cfg = append(cfg, gen.Pick(r, []string{"prehost:reads", "posthost:reads"}))
+		}
+		in, base, has := startCase(r)
+		if r.IntN(3) == 0 {
+			in = gen.Input(r)
+		}
+		cs := &core.Case{Check: "option-config", Input: core.S(in), Base: core.S(base), HasBase: has, Config: cfg, Ops: genHistory(r, 4, histKinds{setters: true, resolve: true})}
+		ctx.Begin(cs)
+		m.Exec(ctx, cs)
+	}
 }
 
 // walkStates parses the start and applies the history, calling each(u, where) at every
@@ -288,7 +304,114 @@ func checkInvariants(s obs.Snap) []string {
 	return bad
 }
 
+// checkComposition: the clauses of C04 that are pure relations between getters and therefore
+// hold under every parser configuration: the serialization is the concatenation of the getters
+// (with the '/.' guard), Host = Hostname[:Port], Href(true) = Href(false) without the fragment,
+// String() = Href(false).
+func checkComposition(s obs.Snap) []string {
+	var bad []string
+	fail := func(f string, a ...any) { bad = append(bad, fmt.Sprintf(f, a...)) }
+	wantHost := s.Hostname
+	if s.Port != "" {
+		wantHost += ":" + s.Port
+	}
+	if s.Host != wantHost {
+		fail("Host %q != Hostname[:Port] %q", s.Host, wantHost)
+	}
+	userinfo := ""
+	if s.Username != "" || s.Password != "" {
+		userinfo = s.Username
+		if s.Password != "" {
+			userinfo += ":" + s.Password
+		}
+		userinfo += "@"
+	}
+	auths := []string{"//" + userinfo + s.Host}
+	if s.Host == "" && userinfo == "" {
+		auths = append(auths, "") // a null host: no authority at all
+	}
+	qs := []string{s.Search}
+	if s.Search == "" {
+		qs = []string{"", "?"}
+	}
+	fs := []string{s.Hash}
+	if s.Hash == "" {
+		fs = []string{"", "#"}
+	}
+	composed, composedNoFrag := false, false
+	for _, a := range auths {
+		guards := []string{""}
+		if a == "" && !s.Opaque && strings.HasPrefix(s.Pathname, "//") {
+			guards = []string{"/."}
+		}
+		for _, g := range guards {
+			for _, q := range qs {
+				noFrag := s.Protocol + a + g + s.Pathname + q
+				if s.HrefNoFrag == noFrag {
+					composedNoFrag = true
+				}
+				for _, f := range fs {
+					if s.Href == noFrag+f {
+						composed = true
+					}
+				}
+			}
+		}
+	}
+	if !composed {
+		fail("href %q is not protocol %q + [//userinfo@host %q] + pathname %q + search %q + hash %q", s.Href, s.Protocol, userinfo+s.Host, s.Pathname, s.Search, s.Hash)
+	}
+	if !composedNoFrag {
+		fail("Href(true) %q is not the composition without the fragment", s.HrefNoFrag)
+	}
+	if s.Str != s.Href {
+		fail("String() %q != Href(false) %q", s.Str, s.Href)
+	}
+	return bad
+}
+
+// execConfig: the composition clauses under a sampled parser configuration (incl. host hooks
+// that read the URL they are given), after parse and after every step of a short history.
+func (c04) execConfig(ctx *core.Ctx, cs *core.Case) {
+	p := buildParser(cs.Config)
+	input, base := string(cs.Input), string(cs.Base)
+	u, err, pan := parseImpl(ctx, p, input, base, cs.HasBase && base != "", false)
+	if pan != nil || err != nil || u == nil {
+		ctx.Count("start_rejected")
+		return
+	}
+	ctx.Nontrivial()
+	check := func(where string) bool {
+		var s obs.Snap
+		if pan := ctx.Call(64, func() { s = obs.Take(u) }); pan != nil {
+			return false
+		}
+		ctx.Count("states_option_configs")
+		if bad := checkComposition(s); len(bad) > 0 {
+			ctx.Violate("the serialization is not the composition of the getters under a parser-option configuration: "+invariantClass(bad[0]), "composition holds", s.Href,
+				where+" options "+strings.Join(cs.Config, ",")+": "+strings.Join(bad, " | "))
+			return false
+		}
+		return true
+	}
+	if !check("after parse") {
+		return
+	}
+	for i, op := range cs.Ops {
+		if pan := ctx.Call(opBytes(op)+len(input)+len(base)+256, func() { u = applyOp(u, op) }); pan != nil {
+			return
+		}
+		if !check(fmt.Sprintf("after step %d %s", i, clipS(op.String(), 100))) {
+			return
+		}
+	}
+}
+
 func (c04) Exec(ctx *core.Ctx, cs *core.Case) {
+	if cs.Check == "option-config" {
+		c04{}.execConfig(ctx, cs)
+		return
+	}
 	walkStates(ctx, cs, func(u *url.Url, where string) bool {
 		var s obs.Snap
 		if pan := ctx.Call(64, func() { s = obs.Take(u) }); pan != nil {
